@@ -325,4 +325,165 @@ theorem copyAtoms_ids_lt (fl : Flags) (root : Nat) (l : List AtomO) : ∀ n x,
       simp only [atomsSize] at this
       omega
 
+/-! ### dictionaries merged by `|` -/
+
+theorem strip_append (a b : Ents) : (a.append b).strip = a.strip.append b.strip := by
+  induction a with
+  | nil => rfl
+  | scalar k v r ih => simp [Ents.append, Ents.strip, ih]
+  | cont k t i inner r _ ih => simp [Ents.append, Ents.strip, ih]
+
+theorem mem_ids_append (a b : Ents) (x : Nat) : x ∈ (a.append b).ids ↔ x ∈ a.ids ∨ x ∈ b.ids := by
+  induction a with
+  | nil => simp [Ents.append, Ents.ids]
+  | scalar k v r ih => simpa [Ents.append, Ents.ids] using ih
+  | cont k t i inner r _ ih =>
+    simp only [Ents.append, Ents.ids, List.mem_cons, List.mem_append, ih]
+    constructor
+    · rintro (h | h | h | h)
+      · exact Or.inl (Or.inl h)
+      · exact Or.inl (Or.inr (Or.inl h))
+      · exact Or.inl (Or.inr (Or.inr h))
+      · exact Or.inr h
+    · rintro ((h | h | h) | h)
+      · exact Or.inl h
+      · exact Or.inr (Or.inl h)
+      · exact Or.inr (Or.inr (Or.inl h))
+      · exact Or.inr (Or.inr (Or.inr h))
+
+/-! ### bonds copied into a block of a longer atom list -/
+
+theorem copyBonds_ends_mem (fl : Flags) (root : Nat) (old new : List Nat) (hl : old.length = new.length)
+    (l : List BondO) (he : ∀ x ∈ l, x.a1 ∈ old ∧ x.a2 ∈ old) : ∀ (k : Nat) (b : BondO),
+    b ∈ copyBonds fl root old new k l → b.a1 ∈ new ∧ b.a2 ∈ new := by
+  have hmem : ∀ x, x ∈ old → mapAtom old new x ∈ new := by
+    intro x hx
+    unfold mapAtom
+    have hlt : old.idxOf x < new.length := hl ▸ List.idxOf_lt_length_of_mem hx
+    rw [List.getElem?_eq_getElem hlt, Option.getD_some]
+    exact List.getElem_mem hlt
+  induction l with
+  | nil => intro k b h; simp [copyBonds] at h
+  | cons x l ih =>
+    intro k b h
+    simp only [copyBonds, List.mem_cons] at h
+    rcases h with h | h
+    · subst h
+      have := he x (List.mem_cons_self)
+      exact ⟨hmem _ this.1, hmem _ this.2⟩
+    · exact ih (fun y hy => he y (List.mem_cons_of_mem _ hy)) _ b h
+
+theorem obsBond_append_right (root : Nat) (L M : List Nat) (b : BondO) (h1 : b.a1 ∈ L) (h2 : b.a2 ∈ L) :
+    obsBond root (L ++ M) b = obsBond root L b := by
+  simp only [obsBond]
+  rw [List.idxOf_append, List.idxOf_append, if_pos h1, if_pos h2]
+
+theorem copyAtoms_ids_lt' (fl : Flags) (root : Nat) (l : List AtomO) (n x : Nat)
+    (h : x ∈ (copyAtoms fl root n l).map (·.id)) : x < n + atomsSize l := copyAtoms_ids_lt fl root l n x h
+
+/-! ### concatenation of any number of sources -/
+
+theorem concatAtoms_ids_ge (fl : Flags) (root : Nat) (ss : List MolO) : ∀ k x,
+    x ∈ (concatAtoms fl root k ss).map (·.id) → k ≤ x := by
+  induction ss with
+  | nil => intro k x h; simp [concatAtoms] at h
+  | cons s ss ih =>
+    intro k x h
+    simp only [concatAtoms, List.map_append, List.mem_append] at h
+    rcases h with h | h
+    · exact copyAtoms_ids_ge fl root s.atoms k x h
+    · have := ih _ x h; omega
+
+theorem concatAtoms_ids_nodup (fl : Flags) (root : Nat) (ss : List MolO) : ∀ k,
+    ((concatAtoms fl root k ss).map (·.id)).Nodup := by
+  induction ss with
+  | nil => intro k; simp [concatAtoms]
+  | cons s ss ih =>
+    intro k
+    simp only [concatAtoms, List.map_append]
+    refine List.nodup_append.mpr ⟨copyAtoms_ids_nodup fl root s.atoms k, ih _, ?_⟩
+    intro a ha b hb hab
+    have := copyAtoms_ids_lt fl root s.atoms k a ha
+    have := concatAtoms_ids_ge fl root ss _ b hb
+    omega
+
+theorem concatAtoms_reach_ge (root : Nat) (ss : List MolO) : ∀ k x,
+    x ∈ (concatAtoms repaired root k ss).flatMap AtomO.reach → k ≤ x := by
+  induction ss with
+  | nil => intro k x h; simp [concatAtoms] at h
+  | cons s ss ih =>
+    intro k x h
+    simp only [concatAtoms, List.flatMap_append, List.mem_append] at h
+    rcases h with h | h
+    · exact copyAtoms_reach_ge root s.atoms k x h
+    · have := ih _ x h; omega
+
+theorem concatBonds_reach_ge (root : Nat) (ss : List MolO) : ∀ ka kb x,
+    x ∈ (concatBonds repaired root ka kb ss).flatMap BondO.reach → kb ≤ x := by
+  induction ss with
+  | nil => intro ka kb x h; simp [concatBonds] at h
+  | cons s ss ih =>
+    intro ka kb x h
+    simp only [concatBonds, List.flatMap_append, List.mem_append] at h
+    rcases h with h | h
+    · exact copyBonds_reach_ge root _ _ s.bonds kb x h
+    · have := ih _ _ x h; omega
+
+theorem obs_concatAtoms (root : Nat) (ss : List MolO) : ∀ k,
+    (concatAtoms repaired root k ss).map (obsAtom root) = ss.flatMap (fun s => s.atoms.map obsAtomT) := by
+  induction ss with
+  | nil => intro k; rfl
+  | cons s ss ih =>
+    intro k
+    simp only [concatAtoms, List.map_append, List.flatMap_cons, obs_copyAtoms, ih]
+
+/-- what is observed of the bonds of a concatenation: source by source, bond ends shifted by the number of
+atoms of the sources before -/
+def concatBondsObs : Nat → List MolO → List BondObs
+  | _, [] => []
+  | off, s :: ss =>
+    s.bonds.map (fun b => { obsBondT (s.atoms.map (·.id)) b with
+        e1 := (s.atoms.map (·.id)).idxOf b.a1 + off, e2 := (s.atoms.map (·.id)).idxOf b.a2 + off }) ++
+      concatBondsObs (off + s.atoms.length) ss
+
+theorem obs_concatBonds (root : Nat) (ss : List MolO)
+    (hw : ∀ s ∈ ss, ∀ b ∈ s.bonds, b.a1 ∈ s.atoms.map (·.id) ∧ b.a2 ∈ s.atoms.map (·.id)) :
+    ∀ (pre : List Nat) (ka kb : Nat), (∀ x ∈ pre, x < ka) → pre.Nodup →
+    (concatBonds repaired root ka kb ss).map (obsBond root (pre ++ (concatAtoms repaired root ka ss).map (·.id))) =
+      concatBondsObs pre.length ss := by
+  induction ss with
+  | nil => intro pre ka kb _ _; rfl
+  | cons s ss ih =>
+    intro pre ka kb hpre hnd
+    have hws := hw s (List.mem_cons_self)
+    have hl : (s.atoms.map (·.id)).length = ((copyAtoms repaired root ka s.atoms).map (·.id)).length := by
+      simp [copyAtoms_length]
+    have hnew := copyAtoms_ids_nodup repaired root s.atoms ka
+    have hpn : (pre ++ (copyAtoms repaired root ka s.atoms).map (·.id)).Nodup := by
+      refine List.nodup_append.mpr ⟨hnd, hnew, ?_⟩
+      intro a ha b hb hab
+      have := hpre a ha
+      have := copyAtoms_ids_ge repaired root s.atoms ka b hb
+      omega
+    simp only [concatBonds, concatAtoms, List.map_append, concatBondsObs]
+    congr 1
+    · -- the bonds of `s`: their ends are among the new atoms of `s`
+      rw [← obs_copyBonds_shift root pre _ _ hl hpn s.bonds hws kb]
+      apply List.map_congr_left
+      intro b hb
+      have hm := copyBonds_ends_mem repaired root _ _ hl s.bonds hws kb b hb
+      rw [← List.append_assoc]
+      exact obsBond_append_right root _ _ b (List.mem_append_right _ hm.1) (List.mem_append_right _ hm.2)
+    · have := ih (fun t ht => hw t (List.mem_cons_of_mem _ ht))
+        (pre ++ (copyAtoms repaired root ka s.atoms).map (·.id)) (ka + atomsSize s.atoms) (kb + bondsSize s.bonds)
+        (by
+          intro x hx
+          rcases List.mem_append.mp hx with hx | hx
+          · have := hpre x hx; omega
+          · exact copyAtoms_ids_lt repaired root s.atoms ka x hx)
+        hpn
+      rw [List.append_assoc] at this
+      rw [this]
+      simp [copyAtoms_length]
+
 end Molli.Lemmas.Heap
